@@ -259,6 +259,7 @@ def explore_comb(build, make_ref, cfg, tier, seed, *, letter_cap=40000, sim_budg
             doms = [ref.alphabet(n, False) for n in sup]
             thinned += 1
         pidx = [comp.probe_index[p] for p in probes]
+        first = True
         for vals in itertools.product(*doms):
             letter = [0] * n_in
             for i, v in zip(idx, vals):
@@ -281,8 +282,9 @@ def explore_comb(build, make_ref, cfg, tier, seed, *, letter_cap=40000, sim_budg
                     return dict(states=1, transitions=evals, violation=dict(
                         kind="comb", err=err, trace=[list(letter)], inputs=comp.in_names, probes=comp.probe_names,
                         signature=err["signature"]))
-            if rng.random() < 0.02 and len(sampled) < 400:
+            if (first or rng.random() < 0.02) and len(sampled) < 400:
                 sampled.append(letter)
+            first = False
     # bind to the implementation: the sampled letters as ONE trace through amaranth.sim
     cycles = 0
     if sampled:
